@@ -2,6 +2,7 @@ package main
 
 import (
 	"fmt"
+	"os"
 	"strings"
 )
 
@@ -29,7 +30,7 @@ func judge(fr *FuncResult) (failed []*Obligation) {
 	coverAny := map[string]bool{}
 	coverSeen := map[string][]*Obligation{}
 	for _, ob := range fr.Obs {
-		if !ob.Cover {
+		if !ob.Cover || ob.Info {
 			continue
 		}
 		b := baseName(ob.Name)
@@ -65,6 +66,13 @@ func judge(fr *FuncResult) (failed []*Obligation) {
 		}
 	}
 	for _, ob := range fr.Obs {
+		if ob.Info {
+			ob.OK = true
+			if ob.Result != nil && ob.Result.Status == "unsat" {
+				fmt.Fprintf(os.Stderr, "unreachable branch: %s %s (%s)\n", fr.Fn, ob.Name, ob.Pos)
+			}
+			continue
+		}
 		if ob.Cover {
 			ob.OK = coverAny[baseName(ob.Name)]
 			if !ob.OK {
